@@ -1,6 +1,8 @@
 use super::{Encoding, FromReq};
 use crate::{
-    error::{FromServerFnError, ServerFnErrorWrapper},
+    error::{
+        FromServerFnError, IntoAppError, ServerFnErrorErr, ServerFnErrorWrapper,
+    },
     request::{browser::BrowserFormData, ClientReq, Req},
     ContentType, IntoReq,
 };
@@ -85,7 +87,14 @@ where
         let boundary = req
             .to_content_type()
             .and_then(|ct| multer::parse_boundary(ct).ok())
-            .expect("couldn't parse boundary");
+            .ok_or_else(|| {
+                ServerFnErrorErr::Args(
+                    "couldn't parse the multipart boundary from the \
+                     Content-Type header"
+                        .to_string(),
+                )
+                .into_app_error()
+            })?;
         let stream = req.try_into_stream()?;
         let data = multer::Multipart::new(
             stream.map(|data| data.map_err(|e| ServerFnErrorWrapper(E::de(e)))),
